@@ -4,9 +4,9 @@ package main
 // by the harness (rt.ZipEntry); entry contents are empty.
 
 import (
-	"regexp"
 	"fmt"
 	"go/types"
+	"regexp"
 )
 
 func setField(v Struct, t types.Type, name string, val Value) {
